@@ -571,7 +571,7 @@ func (r *Raft) runLeader() {
 	// maintain that there exists at most one uncommitted configuration entry in
 	// any log, so we have to do proper no-ops here.
 	noop := &logFuture{log: Log{Type: LogNoop}}
-	r.dispatchLogs([]*logFuture{noop})
+	_ = r.dispatchLogs([]*logFuture{noop})
 
 	// Sit in the leader loop until we step down
 	r.leaderLoop()
@@ -930,7 +930,7 @@ func (r *Raft) leaderLoop() {
 					ready[i].respond(ErrNotLeader)
 				}
 			} else {
-				r.dispatchLogs(ready)
+				_ = r.dispatchLogs(ready)
 			}
 
 		case <-lease:
@@ -1255,7 +1255,11 @@ func (r *Raft) appendConfigurationEntry(future *configurationChangeFuture) {
 		}
 	}
 
-	r.dispatchLogs([]*logFuture{&future.logFuture})
+	if err := r.dispatchLogs([]*logFuture{&future.logFuture}); err != nil {
+		// The entry is not in our log (and we have stepped down): the new
+		// configuration must not take effect. The future has been answered.
+		return
+	}
 	index := future.Index()
 	r.setLatestConfiguration(configuration, index)
 	r.leaderState.commitment.setConfiguration(configuration)
@@ -1264,7 +1268,7 @@ func (r *Raft) appendConfigurationEntry(future *configurationChangeFuture) {
 
 // dispatchLog is called on the leader to push a log to disk, mark it
 // as inflight and begin replication of it.
-func (r *Raft) dispatchLogs(applyLogs []*logFuture) {
+func (r *Raft) dispatchLogs(applyLogs []*logFuture) error {
 	now := time.Now()
 	defer metrics.MeasureSince([]string{"raft", "leader", "dispatchLog"}, now)
 
@@ -1295,7 +1299,7 @@ func (r *Raft) dispatchLogs(applyLogs []*logFuture) {
 			applyLog.respond(err)
 		}
 		r.setState(Follower)
-		return
+		return err
 	}
 	r.leaderState.commitment.match(r.localID, lastIndex)
 
@@ -1306,6 +1310,7 @@ func (r *Raft) dispatchLogs(applyLogs []*logFuture) {
 	for _, f := range r.leaderState.replState {
 		asyncNotifyCh(f.triggerCh)
 	}
+	return nil
 }
 
 // processLogs is used to apply all the committed entries that haven't been
